@@ -52,7 +52,8 @@ type State struct {
 	held    map[string]bool // ghost: mutexes held (term -> bool)
 	ghost   map[string]string
 	depth   int
-	defers  []*ssa.Defer // deferred calls of the top frame registered on this path
+	defers  []*ssa.Defer   // deferred calls of the top frame registered on this path
+	lastRes map[string]Val // result of the most recent call (on this path) of each named callee: lastresult(NAME)
 }
 
 func (s *State) clone() *State {
@@ -80,6 +81,10 @@ func (s *State) clone() *State {
 	n.ghost = make(map[string]string, len(s.ghost))
 	for k, v := range s.ghost {
 		n.ghost[k] = v
+	}
+	n.lastRes = make(map[string]Val, len(s.lastRes))
+	for k, v := range s.lastRes {
+		n.lastRes[k] = v
 	}
 	n.pc = append([]string(nil), s.pc...)
 	n.decls = append([]string(nil), s.decls...)
